@@ -28,6 +28,7 @@ def scaled_floors(cid, names, tier, ratio):
     except OSError:
         cal = {}
     mult = 1 if tier == "quick" else max(1.0, ratio * 0.5)
+    names = list(names) + ["env.debug_logging_cases"]  # every check runs a share of its executions with the library's loggers at DEBUG
     return {k: max(1, int(cal.get(k, 1) * mult)) for k in names}
 
 
@@ -232,8 +233,20 @@ class C09Check(PoolCheck):
         return out
 
 
-class C15Check(PoolCheck):
-    """Adds the session family: pool_size read and assigned through a control session, compared with a twin pool driven directly."""
+class SessionFamilyCheck(PoolCheck):
+    """Adds a 'session' family: the operations of this property issued as control commands (in-memory sessions on a
+    real, never started server object; optionally a second served pool of the same class that gets the same lines),
+    compared after every command with a twin pool driven by direct calls (vf/c17.py)."""
+
+    session_n = (300, 10000)
+    session_prop = None  # e.g. "C15"
+    session_key = "pool_size"  # the command whose use makes a session non-trivial
+
+    def session_only(self, cls):
+        raise NotImplementedError
+
+    def session_tweak(self, sc, i):
+        pass
 
     def prepare(self):
         from . import control, mods
@@ -241,7 +254,7 @@ class C15Check(PoolCheck):
         self.mods = control.load_control(mods.load())
 
     def families(self, tier):
-        return super().families(tier) + [("session", 300 if tier == "quick" else 10000)]
+        return super().families(tier) + [("session", self.session_n[0] if tier == "quick" else self.session_n[1])]
 
     def make_case(self, fam, seed, i, tier):
         if fam == "session":
@@ -249,26 +262,28 @@ class C15Check(PoolCheck):
 
             from . import c17
 
-            sc = c17.gen_scenario(random.Random(f"{seed}:C15s:{i}"))
+            sc = c17.gen_scenario(random.Random(f"{seed}:{self.cid}s:{i}"))
             sc["cls"] = "T" if i % 2 else "S"
             sc["sfunc"] = "block"
             sc["size"] = [1, 2, 3, None][i % 4]
-            sc["as_c15"] = True
+            sc["as_prop"] = self.session_prop
             sc["noise"] = False
-            sc["only"] = ["pool_size", "pool_size", "pool_size", "num_running", "is_full"] + (["apply", "cancel_all"] if sc["cls"] == "T" else ["start", "stop", "stop_all"])
+            sc["only"] = self.session_only(sc["cls"])
+            self.session_tweak(sc, i)
             return sc
         return super().make_case(fam, seed, i, tier)
 
     def run_case(self, case, verbose=False):
-        if not case.get("as_c15"):
+        if not case.get("as_prop"):
             return super().run_case(case, verbose)
         from . import c17
 
         w = c17.World(self.mods, case)
         r = w.run()
         sit = dict(r["sit"])
-        sit["C15.session_pool_size_commands"] = sit.get("C17.cmd.pool_size", 0)
-        out = {"viol": r["viol"], "sit": sit, "inconclusive": r["inconclusive"], "nontrivial": sit.get("C17.cmd.pool_size", 0) > 0,
+        key = "C17.cmd." + self.session_key
+        sit[f"{self.cid}.session_{self.session_key}_commands"] = sit.get(key, 0)
+        out = {"viol": r["viol"], "sit": sit, "inconclusive": r["inconclusive"], "nontrivial": sit.get(key, 0) > 0,
                "sig": "session:" + str(case["seed"]), "extra": {}}
         if r["viol"]:
             out["log_tail"] = w.log[-60:]
@@ -276,6 +291,31 @@ class C15Check(PoolCheck):
             out["log"] = w.log
         out["sample"] = {"case": case, "log_head": w.log[:20]}
         return out
+
+
+class C15Check(SessionFamilyCheck):
+    """Session family: pool_size read and assigned through a control session."""
+
+    session_prop = "C15"
+    session_key = "pool_size"
+
+    def session_only(self, cls):
+        return ["pool_size", "pool_size", "pool_size", "num_running", "is_full"] + (["apply", "cancel_all"] if cls == "T" else ["start", "stop", "stop_all"])
+
+
+class C06Check(SessionFamilyCheck):
+    """Session family: cancel sent as a command to one of two served pools of the same class."""
+
+    session_prop = "C06"
+    session_key = "cancel"
+    session_n = (200, 6000)
+
+    def session_only(self, cls):
+        return ["cancel", "cancel", "cancel", "num_running", "num_cancelled"] + (["apply", "apply"] if cls == "T" else ["start", "start"])
+
+    def session_tweak(self, sc, i):
+        sc["decoy"] = True
+        sc["size"] = [None, 3, None, 5][i % 4]
 
 
 class C13Check(PoolCheck):
@@ -332,7 +372,7 @@ def reg(c):
 
 
 reg(PoolCheck(
-    "C01", P(sizes=[0, 0, 1, 1, 2, 2, 3, 3, 4, None], w={"apply": 8, "map": 8, "start": 8, "reject": 0, "probe": 0.2, "grow_size": 1.5}),
+    "C01", P(sizes=[0, 0, 1, 1, 2, 2, 3, 3, 4, None], w={"apply": 8, "map": 8, "start": 8, "reject": 0, "probe": 0.2, "grow_size": 1.5, "set_same": 3}, inner_ops=0.25, cb=0.6),
     "random scenarios (1-2 pools, sizes 0..4/unbounded, 5-35 operations incl. spawn/cancel/flush/close placed at iteration "
     "boundaries and inside workers/callbacks/iterators); non-trivial = a task began into the last free slot and tasks ended in "
     ">=2 different ways; distinct = distinct (operation,situation) sequence + event-bigram signature",
@@ -381,13 +421,14 @@ reg(PoolCheck(
     floors={"C05.empty_element": 100, "C05.work_conserving_checked": 300, "C05.lazy_tight": 5000, "C05.skip_checked": 300, "C05.begin_at_nc": 2000},
 ))
 
-reg(PoolCheck(
+reg(C06Check(
     "C06", P(w={"cancel": 14, "intruder": 5, "flush": 3, "cancel_group": 2, "stop": 2, "reject": 0, "qput": 4}, inner_ops=0.3, cb=0.6, cb_gate=0.4, qwait=0.35),
     "random scenarios in which cancel(*ids) is called with 0..4 ids drawn from running / repeated / pending / unbegun / in-callback / ended / flushed / never-issued / negative ids "
     "by conductor, intruders, workers and callbacks; non-trivial = a call mixed valid and offending ids, or a call was accepted; distinct by signature",
     lambda s: s.get("C06.mixed", 0) > 0 or s.get("C06.accepted_calls", 0) > 0,
     6000, 120000,
-    floors={"C06.mixed": 300, "C06.reject.AlreadyEnded": 300, "C06.reject.AlreadyCancelled": 20, "C06.reject.InvalidTaskID": 300, "C06.delivered_exact": 1000},
+    floors={"C06.mixed": 300, "C06.reject.AlreadyEnded": 300, "C06.reject.AlreadyCancelled": 20, "C06.reject.InvalidTaskID": 300, "C06.delivered_exact": 1000,
+            "C06.session_cancel_commands": 100, "C17.decoy_lines": 100, "q.wait": 500, "q.got.pending": 1},
 ))
 
 reg(PoolCheck(
@@ -474,8 +515,8 @@ reg(PoolCheck(
 reg(C15Check(
     "C15", P(sizes=[0, 1, 2, 3, 5, None], size_track=True, cls=["T", "S"], npools=[1],
              w={"set_size": 10, "apply": 8, "start": 8, "map": 0, "open": 8, "idle": 6, "cancel": 2, "stop": 2, "cancel_group": 1, "cancel_all": 0.3,
-                "flush": 1, "gac": 0, "reject": 0, "probe": 0, "lock": 0.3, "unlock": 0.3, "intruder": 1},
-             gate=0.6, final_gac=0.3, inner_ops=0.05, self_cancel_no_suspend=0.0),
+                "flush": 2.5, "gac": 0, "reject": 0, "probe": 0, "lock": 0.3, "unlock": 0.3, "intruder": 1, "combo": 3},
+             gate=0.6, final_gac=0.3, inner_ops=0.05, self_cancel_no_suspend=0.0, abandon=0.4, cb=0.6, cb_async=0.7, cb_gate=0.4),
     "random histories of pool_size assignments (old/new over {0,1,2,3,5,unbounded}, negative values) at every occupancy 0..old with 0..n invocations waiting for room, "
     "gated workers; pool_size is read at every handle boundary and user-code point; non-trivial = an assignment happened while tasks were running or waiting; distinct by signature",
     lambda s: any(k.endswith(".busy") or k.endswith(".waiting") for k in s if k.startswith("C15.assign")),
